@@ -50,7 +50,11 @@ func genConv(t *rapid.T, id identity, maxReqs int, allowTransfer bool, label str
 	serial := uint16(rapid.SampledFrom([]int{0, 1, 65530, 300, 0x7d00}).Draw(t, label+"_serial0"))
 	n := rapid.IntRange(1, maxReqs).Draw(t, label+"_nreq")
 	for i := 0; i < n; i++ {
-		r := genRequest(t, id, &serial, allowTransfer, label)
+		rid := id
+		if i > 0 && rapid.IntRange(0, 9).Draw(t, label+"_other_layout") == 0 {
+			rid.V2019 = !id.V2019 // the same phone number in the other header layout on the same connection
+		}
+		r := genRequest(t, rid, &serial, allowTransfer, label)
 		note := ""
 		if r.MsgID == 0x0102 && r.Kind == "reply" {
 			// recompute the note from the body: the reply check needs it on replay
@@ -175,6 +179,7 @@ func judgeConversation(name string, c convTerminal, h History, firstPlatformSeri
 		r   reqJSON
 		idx int
 	}
+	mixed := false
 	var want []exp
 	for i, r := range c.Reqs {
 		if r.Kind == "reply" {
@@ -203,8 +208,15 @@ func judgeConversation(name string, c convTerminal, h History, firstPlatformSeri
 		if f.ID != rid {
 			return nil, fmt.Errorf("%s: reply %d has type %#04x, want %#04x for request %#04x (serials %v)", name, k, f.ID, rid, w.r.MsgID, w.r.Serials)
 		}
-		if !bytes.Equal(f.PhoneBCD, c.ID.bcd()) || f.Version2019 != c.ID.V2019 {
-			return nil, fmt.Errorf("%s: reply %d addressed to phone %x v2019=%v, want %x v2019=%v", name, k, f.PhoneBCD, f.Version2019, c.ID.bcd(), c.ID.V2019)
+		reqID := c.ID
+		if rf, why := ref.Validate(w.r.Frames[len(w.r.Frames)-1]); why == "" {
+			reqID.V2019 = rf.Version2019 // a reply uses the layout of the request it answers
+		}
+		if !bytes.Equal(f.PhoneBCD, reqID.bcd()) || f.Version2019 != reqID.V2019 {
+			return nil, fmt.Errorf("%s: reply %d addressed to phone %x v2019=%v, want %x v2019=%v (layout of its request)", name, k, f.PhoneBCD, f.Version2019, reqID.bcd(), reqID.V2019)
+		}
+		if reqID.V2019 != c.ID.V2019 {
+			mixed = true
 		}
 		if firstPlatformSerial >= 0 && int(f.Serial) != (firstPlatformSerial+k)&0xffff {
 			return nil, fmt.Errorf("%s: reply %d carries platform serial %d, want %d (consecutive from %d)", name, k, f.Serial, (firstPlatformSerial+k)&0xffff, firstPlatformSerial)
@@ -270,6 +282,9 @@ func judgeConversation(name string, c convTerminal, h History, firstPlatformSeri
 		}
 	}
 	seen := map[string]bool{}
+	if mixed {
+		seen["mixed_layouts_on_one_connection"] = true
+	}
 	for _, r := range c.Reqs {
 		seen[fmt.Sprintf("msg_%04x", r.MsgID)] = true
 		if r.Transfer {
